@@ -14,6 +14,7 @@ import (
 	"github.com/prometheus/client_golang/prometheus"
 	"github.com/semihalev/sdns/config"
 	"github.com/semihalev/sdns/internal/metric"
+	"github.com/semihalev/sdns/internal/verifhook"
 	"github.com/semihalev/sdns/middleware"
 	"github.com/semihalev/zlog/v2"
 )
@@ -498,6 +499,9 @@ func (b *BlockList) persist(s blockSnapshot) {
 		return
 	}
 
+	if err := verifhook.Fail("blocklist.persist.begin"); err != nil {
+		return
+	}
 	path := filepath.Join(b.cfg.BlockListDir, "local")
 	tmp, err := os.CreateTemp(b.cfg.BlockListDir, "local.tmp.*")
 	if err != nil {
@@ -518,6 +522,10 @@ func (b *BlockList) persist(s blockSnapshot) {
 		fail("write header", err)
 		return
 	}
+	if err := verifhook.Fail("blocklist.persist.after-header"); err != nil {
+		fail("verif", err)
+		return
+	}
 	for _, d := range s.exact {
 		if _, err := tmp.WriteString(d + "\n"); err != nil {
 			fail("write exact", err)
@@ -530,6 +538,10 @@ func (b *BlockList) persist(s blockSnapshot) {
 			return
 		}
 	}
+	if err := verifhook.Fail("blocklist.persist.before-sync"); err != nil {
+		fail("verif", err)
+		return
+	}
 	if err := tmp.Sync(); err != nil {
 		fail("sync", err)
 		return
@@ -539,9 +551,16 @@ func (b *BlockList) persist(s blockSnapshot) {
 		cleanup()
 		return
 	}
+	if err := verifhook.Fail("blocklist.persist.before-rename"); err != nil {
+		cleanup()
+		return
+	}
 	if err := os.Rename(tmpName, path); err != nil {
 		zlog.Warn("Blocklist persist failed", "stage", "rename", "error", err.Error())
 		cleanup()
+		return
+	}
+	if err := verifhook.Fail("blocklist.persist.after-rename"); err != nil {
 		return
 	}
 
